@@ -15,6 +15,9 @@ pub struct Case {
     pub class: String,
     pub text: String,
     pub spec: Option<String>,
+    /// for cases with two deviations: (class, text) of each deviation applied alone. A failing
+    /// pair is attributed to the single deviation that already fails (minimal deviation set).
+    pub parts: Vec<(String, String)>,
 }
 
 pub enum RT {
@@ -168,14 +171,14 @@ pub fn layout_cases(d: &CDoc, ws: bool, cm: bool, out: &mut Vec<Case>) {
                 }
                 let mut g = HashMap::new();
                 g.insert(gap, w.to_string());
-                out.push(Case { label: format!("{} + ws(gap {gap},{n})", d.label), class: format!("ws:{n}@{role}"), text: render(&toks, &g), spec: None });
+                out.push(Case { label: format!("{} + ws(gap {gap},{n})", d.label), class: format!("ws:{n}@{role}"), text: render(&toks, &g), spec: None, parts: vec![] });
             }
         }
         if cm {
             for (n, c) in CM {
                 let mut g = HashMap::new();
                 g.insert(gap, c.to_string());
-                out.push(Case { label: format!("{} + cm(gap {gap},{n})", d.label), class: format!("cm:{n}@{role}"), text: render(&toks, &g), spec: None });
+                out.push(Case { label: format!("{} + cm(gap {gap},{n})", d.label), class: format!("cm:{n}@{role}"), text: render(&toks, &g), spec: None, parts: vec![] });
             }
         }
     }
@@ -316,7 +319,7 @@ pub fn value_cases(d: &CDoc, str_units: usize, out: &mut Vec<Case>) {
         for (n, lit) in lits {
             let mut doc = d.doc.clone();
             doc.root.at_mut(&d.path).params[pi].text = lit;
-            out.push(Case { label: format!("{} + val({},{n})", d.label, p.field), class: format!("val:{tyname}:{n}"), text: doc.text(), spec: None });
+            out.push(Case { label: format!("{} + val({},{n})", d.label, p.field), class: format!("val:{tyname}:{n}"), text: doc.text(), spec: None, parts: vec![] });
         }
     }
 }
@@ -379,6 +382,7 @@ pub fn ifdata_cases(g: &Grammar, out: &mut Vec<Case>) {
                         class: format!("ifdata:{pn}:a2ml={with_a2ml}:builtin={builtin}"),
                         text: doc.text(),
                         spec: builtin.then(|| IFDATA_A2ML.to_string()),
+                        parts: vec![],
                     });
                 }
             }
@@ -403,9 +407,9 @@ pub fn build_cases(g: &Grammar, thorough: bool) -> Vec<Case> {
         plain.extend(corpus::opt_pair_docs(g, Some(&["MEASUREMENT", "MOD_COMMON"])));
     }
     for d in &plain {
-        out.push(Case { label: d.label.clone(), class: "grammar".into(), text: d.doc.text(), spec: None });
+        out.push(Case { label: d.label.clone(), class: "grammar".into(), text: d.doc.text(), spec: None, parts: vec![] });
         // the same document with CRLF line ends
-        out.push(Case { label: format!("{} + crlf", d.label), class: "crlf-document".into(), text: d.doc.text().replace('\n', "\r\n"), spec: None });
+        out.push(Case { label: format!("{} + crlf", d.label), class: "crlf-document".into(), text: d.doc.text().replace('\n', "\r\n"), spec: None, parts: vec![] });
     }
     // layout at every gap of every carrier
     for d in &carriers {
@@ -437,11 +441,17 @@ pub fn build_cases(g: &Grammar, thorough: bool) -> Vec<Case> {
                         let mut gm = HashMap::new();
                         gm.insert(g1, c1.clone());
                         gm.insert(g2, c2.clone());
+                        let single = |g: usize, c: &String| {
+                            let mut m = HashMap::new();
+                            m.insert(g, c.clone());
+                            render(&toks, &m)
+                        };
                         out.push(Case {
                             label: format!("{} + {n1}(gap {g1}) + {n2}(gap {g2})", d.label),
                             class: format!("pair:{n1}@{}+{n2}@{}", gap_role(&toks, g1), gap_role(&toks, g2)),
                             text: render(&toks, &gm),
                             spec: None,
+                            parts: vec![(format!("{n1}@{}", gap_role(&toks, g1)), single(g1, c1)), (format!("{n2}@{}", gap_role(&toks, g2)), single(g2, c2))],
                         });
                     }
                 }
@@ -463,7 +473,7 @@ pub fn build_cases(g: &Grammar, thorough: bool) -> Vec<Case> {
     let n = out.len();
     for i in 0..n {
         if out[i].class.starts_with("ifdata:") {
-            let c = Case { label: format!("{} + crlf", out[i].label), class: format!("crlf+{}", out[i].class), text: out[i].text.replace('\n', "\r\n"), spec: out[i].spec.clone() };
+            let c = Case { label: format!("{} + crlf", out[i].label), class: format!("crlf+{}", out[i].class), text: out[i].text.replace('\n', "\r\n"), spec: out[i].spec.clone(), parts: vec![] };
             out.push(c);
         }
     }
@@ -497,7 +507,17 @@ pub fn run(tier: &str) -> Run {
             RT::Viol { oracle, what } => {
                 run.transitions += 4;
                 run.outcome(&format!("{cls}: violation"));
-                let key = if oracle.starts_with("panic") { format!("C01/{oracle} {}", vcore::explore::panic_key(&what)) } else { format!("C01/{oracle}/{}", cases[i].class) };
+                // minimal deviation set: a pair is attributed to a single deviation that fails alone
+                let mut class = cases[i].class.clone();
+                for (pc, pt) in &cases[i].parts {
+                    if let RT::Viol { oracle: o2, .. } = roundtrip(pt, cases[i].spec.as_deref()) {
+                        if o2 == oracle {
+                            class = pc.clone();
+                            break;
+                        }
+                    }
+                }
+                let key = if oracle.starts_with("panic") { format!("C01/{oracle} {}", vcore::explore::panic_key(&what)) } else { format!("C01/{oracle}/{class}") };
                 run.violation(key, format!("{}: {what}", cases[i].label), json!({"text": cases[i].text, "spec": cases[i].spec, "label": cases[i].label}));
             }
         }
